@@ -233,6 +233,10 @@ def gen_plan(seed):
         # one Ordering object per ordering, shared by every diagram built
         # under it (instead of a fresh list per diagram)
         'shared_orderings': rng.random() < 0.4,
+        # an operation abandoned half-way (KeyboardInterrupt-like exception
+        # at a line event of BDD.py / OBDD.py); findings that need it are
+        # reported as EXTENSION-FINDING only
+        'p_abort': rng.choice([0.0, 0.0, 0.0, 0.15]),
     }
 
     def pool():
@@ -400,7 +404,22 @@ def gen_plan(seed):
                     rng.uniform(0, math.log(top)))))]
             else:
                 op['g'] = ['every', cfg['period']]
+        if lib and 'g' not in op and op['k'] in ('build', 'combine', 'invert',
+                                                  'restrict') and \
+                rng.random() < cfg['p_abort']:
+            top = LINE_SPAN.get(op['k'], 500)
+            op['x'] = max(1, int(math.exp(rng.uniform(0, math.log(top)))))
         ops.append(op)
+        if op['k'] == 'combine' and 'x' in op and rng.random() < 0.7:
+            # after an abandoned combination the user tries again, often
+            # with another operator on the same operands
+            other = rng.choice([c for c in '&|^' if c != op['op']] +
+                               [op['op']])
+            s2 = rng.randrange(nslots)
+            if s2 not in (op['a'], op['b']):
+                ops.append({'k': 'combine', 's': s2, 'op': other,
+                            'a': op['a'], 'b': op['b']})
+                occ[s2] = occ[op['a']]
         if op['k'] == 'combine' and rng.random() < cfg['p_reuse_left']:
             # the same OBDD object as left operand again, same operator,
             # after the first right operand was dropped and another small
@@ -436,6 +455,10 @@ class _Junk(object):
         self.c = None
 
 
+class SimAbort(BaseException):
+    """Modelled on KeyboardInterrupt: abandons an operation half-way."""
+
+
 class Violation(Exception):
     def __init__(self, cls, detail):
         Exception.__init__(self, cls + ': ' + detail)
@@ -460,6 +483,7 @@ def execute(plan):
     for m in (BDDm, OBDDm, _weakrefset):
         f = m.__file__
         traced_files.add(f)
+    repo_files = set([BDDm.__file__, OBDDm.__file__])
     gc.disable()
     gc.collect()
     core.normalise_heap()
@@ -509,6 +533,12 @@ def execute(plan):
                 func_order.append(nm)
             func_lines[nm] += 1
             mode, k = state['armed'][0], state['armed'][1]
+            if mode == 'abort':
+                if state['count'] >= k and \
+                        frame.f_code.co_filename in repo_files:
+                    state['armed'] = None
+                    raise SimAbort('injected by the simulator')
+                return local_trace
             hit = False
             if mode == 'infunc':
                 if nm == k:
@@ -833,6 +863,8 @@ def execute(plan):
         if fm is None and k in ('build', 'combine'):
             probe('operation_skipped_support_too_large')
             return None
+        if g is None and op.get('x') is not None:
+            g = ['abort', op['x']]
         if g is not None:
             if g[0] == 'infunc':
                 # resolve the function by cumulative weight
@@ -911,6 +943,10 @@ def execute(plan):
                         fm, A[2], 'dnf']
             else:
                 raise core.HarnessError('unknown op ' + k)
+        except SimAbort:
+            faults['operation_aborted'] = faults.get('operation_aborted',
+                                                     0) + 1
+            made = None
         finally:
             if g is not None:
                 sys.settrace(None)
@@ -1016,6 +1052,10 @@ def simpler_ops(op):
     if 'g' in op:
         o = dict(op)
         del o['g']
+        yield o
+    if 'x' in op:
+        o = dict(op)
+        del o['x']
         yield o
     if op['k'] == 'build':
         e = op['e']
@@ -1126,7 +1166,16 @@ def job(ctx, i):
             else:
                 path = write_replay('C16', ctx['seed'], ctx['tier'], i,
                                     body_for(small, oks))
-        out['violations'] = [{'class': v['class'], 'detail': detail +
+        rec_key = 'violations'
+        if any('x' in o for o in small['ops']):
+            # does it need an abandoned operation?  strip them all and see
+            q2 = dict(small)
+            q2['ops'] = [dict((a, b) for a, b in o.items() if a != 'x')
+                         for o in small['ops']]
+            if not _violates(q2, v['class'], ctx['timeout'])[0]:
+                rec_key = 'extension'
+                out.setdefault('extra', {})['extension_findings'] = 1
+        out[rec_key] = [{'class': v['class'], 'detail': detail +
                               ('' if cli is not False else ' [address-dependent: '
                                'reproduced in {} of 3 forked children but '
                                'not in a fresh interpreter]'.format(oks)),
